@@ -345,7 +345,7 @@ def _package(ctx, case, rec, d):
         # per-file SEDs need not share a grid: same length and same end points but other interior points,
         # or another length altogether
         w2 = wav.copy()
-        w2[1:-1] = w2[1:-1] * np.where(np.arange(n_wav - 2) % 2 == 0, 1.04, 0.97)
+        w2[1:-1] = wav[1:-1] + 0.3 * (wav[2:] - wav[1:-1])          # interior points moved towards their neighbour: still strictly monotonic
         w3 = np.r_[wav[:4], 0.5 * (wav[3] + wav[4]), wav[4:]]
         wav_of = [wav, w2, w3] if case['grids'] == 'interior+length' else [wav, w2, wav]
         rec.cls('seds-with-different-grids')
